@@ -7,6 +7,11 @@ CONSTANTS
   MaxCalls = 1
   DoScan = TRUE
   TrigonalFixed = TRUE
+  BigHkls = {}
+  ConcPairs = {}
+  CoarseNames = {}
+  Stride = 1
+  PublishEarly = FALSE
 INVARIANT TypeOK
 INVARIANT CanonicalAlways
 CHECK_DEADLOCK FALSE
